@@ -47,12 +47,12 @@ REAL = ['circuits.core.timers.Timer', 'circuits.core.manager.Manager.tick/_dispa
 STUBBED = ['time() -> virtual clock', 'threading.Event -> VEvent (waiting moves the clock)', 'select module -> non-blocking shim',
            'thread identity during an injected foreign-thread action']
 ASSUMPTIONS = ['timers are not created from inside a generate_events handler', '"until it is unregistered" is read as: until unregister() has been called on the timer (the Timer guards on its pending unregistration for exactly that)']
-PROBES = ['timer-fired', 'bounded-wait', 'unbounded-wait', 'action-in-idle', 'reset', 'unregister', 'fault:oversleep', 'fault:early_wakeup',
+PROBES = ['threaded', 'timer-fired', 'bounded-wait', 'unbounded-wait', 'action-in-idle', 'reset', 'unregister', 'fault:oversleep', 'fault:early_wakeup',
           'fault:slow_handler', 'fault:clock_jump', 'datetime-timer', 'cfg:fallback', 'cfg:Select', 'cfg:Poll', 'cfg:EPoll', 'equal-deadlines',
           'timer-from-handler']
 TIERS = {
-    'quick': dict(runs=36000, wall=32, chunk=200, cfg=dict(max_timers=4, max_actions=8, max_iters=1500, soft_iters=150)),
-    'thorough': dict(runs=400000, wall=600, chunk=400, cfg=dict(max_timers=6, max_actions=20, max_iters=5000, soft_iters=600)),
+    'quick': dict(runs=36000, wall=32, chunk=200, cfg=dict(max_timers=4, max_actions=8, max_iters=1500, soft_iters=150, threaded_share=6)),
+    'thorough': dict(runs=400000, wall=600, chunk=400, cfg=dict(max_timers=6, max_actions=20, max_iters=5000, soft_iters=600, threaded_share=5)),
 }
 
 INTERVALS = [0, 0.05, 0.1, 0.1, 0.25, 1, 7, 0.1, 3600]
@@ -73,9 +73,159 @@ def run_one(ctx):
     world.reset(ctx)
     simnet.reset(ctx)
     try:
-        _run(ctx)
+        if ctx.ch.draw(ctx.cfg.get('threaded_share', 6), 'mode') == 0:
+            _threaded(ctx)
+        else:
+            _run(ctx)
     finally:
         NET.close_all()
+
+
+def _threaded(ctx):
+    """reset()/unregister() issued by a second thread while the loop runs (SimThreads; every source line of circuits/core incl. timers.py is a
+    pre-emption point).  A fast persistent timer keeps the loop iterating so that loop and actor are due at the same virtual instants.
+    Oracle: a firing at time t is legitimate iff t >= some deadline the timer had during the virtual instant t (the loop may test against the
+    old deadline and fire after a concurrent reset() returned; what must never happen is a firing that neither the old nor the new deadline
+    justifies).  No firing at a later instant than the one in which unregister() returned."""
+    import random
+    from simcore import simthreads
+    ch = ctx.ch
+    ctx.stat('threaded')
+    simthreads.install(extra_modules=(world.T,))
+    sched = simthreads.begin(ctx)
+    try:
+        gen = ch.choice(GENS, 'idle-impl')
+        ctx.stat('cfg:' + gen)
+        T0 = W.now
+        st = dict(viol=False, nfired=0)
+
+        def rel(t):
+            return round(t - T0, 9)
+
+        def fail(key, detail):
+            if not st['viol']:
+                st['viol'] = True
+                ctx.trace('VIOLATION %s: %s' % (key, detail))
+                ctx.violation(key, detail)
+
+        class App(Component):
+            def tev(self, tid):
+                ctx.log('tev', tid, rel(W.now))
+
+        app = App()
+        if gen != 'fallback':
+            {'Select': Select, 'Poll': Poll, 'EPoll': EPoll}[gen]().register(app)
+        recs = []
+
+        def add_timer(interval, persist):
+            tid = len(recs) + 1
+            ev = tev(tid)
+            t = Timer(interval, ev, persist=persist)
+            rec = dict(obj=t, tid=tid, interval=interval, persist=persist, deadline=W.now + interval, fires=[], window=None, unreg=None, unreg_window=False, hist=[])
+            recs.append(rec)
+            real_fire = t.fire
+
+            def spy_fire(event, *channels, **kw):
+                if event is ev:
+                    now = W.now
+                    rec['fires'].append(now)
+                    st['nfired'] += 1
+                    ctx.stat('timer-fired')
+                    ctx.log('fire', tid, rel(now))
+                    ctx.trace('t=%s Timer #%d fires (deadline %s%s)' % (rel(now), tid, rel(rec['deadline']),
+                                                                       ', reset() in progress: new deadline %s' % rel(rec['window']) if rec['window'] is not None else ''))
+                    # Two threads: the loop may have tested the timer against the deadline in force a moment ago and fire after a reset()
+                    # by the other thread has returned.  Virtual time only moves when every thread is blocked, so everything that
+                    # happens at one virtual instant is concurrent: every deadline the timer had during this instant counts.
+                    due = min([rec['deadline']] + ([rec['window']] if rec['window'] is not None else []) + [d for at, d in rec['hist'] if at == now])
+                    if now < due - EPS:
+                        fail('C09/early-fire/%s' % ('during-foreign-reset' if rec['window'] is not None else ('persistent' if persist else 'one-shot')),
+                             'Timer #%d fired at t=%r, %.6g s before its deadline t=%r%s' % (
+                                 tid, rel(now), due - now, rel(due), ' (a reset() by another thread was in progress; neither the old nor the new deadline was due)' if rec['window'] is not None else ''))
+                    if not persist and len(rec['fires']) > 1:
+                        fail('C09/one-shot-fired-twice', 'one-shot Timer #%d fired at %r' % (tid, [rel(x) for x in rec['fires']]))
+                    if rec['unreg'] is not None and not rec['unreg_window'] and rec['unreg'] != now:
+                        fail('C09/fired-after-unregister/%s' % ('persistent' if persist else 'one-shot'),
+                             'Timer #%d fired at t=%r although unregister() (other thread) had returned at t=%r' % (tid, rel(now), rel(rec['unreg'])))
+                    if persist:
+                        rec['hist'].append((now, rec['deadline']))
+                        rec['deadline'] = now + rec['interval']
+                        if rec['window'] is not None:
+                            rec['window'] = max(rec['window'], rec['deadline'])
+                return real_fire(event, *channels, **kw)
+            t.fire = spy_fire
+            t.register(app)
+            ctx.trace('Timer #%d interval=%r persist=%s' % (tid, interval, persist))
+            return rec
+
+        add_timer(ch.choice([0.1, 0.05], 'tick-int'), True)                      # keeps the loop iterating
+        for _ in range(ch.randint(1, 2, 'ntimers')):
+            add_timer(ch.choice([0.1, 0.25, 1, 7], 'interval'), ch.chance(1, 2, 'persist'))
+
+        nact = ch.randint(1, 4, 'nactions')
+        acts = [(ch.choice([0.05, 0.1, 0.1, 0.2, 0.3, 1.0], 'gap'), ch.weighted([4, 1], 'act'), 1 + ch.draw(len(recs) - 1, 'which')) for _ in range(nact)]
+
+        def on_idle(timeout, kind, ready_fn):
+            sched.block(('poll', kind, timeout), timeout, ready_fn=ready_fn, idle_wait=True)
+        NET.on_idle = on_idle
+
+        def loop():
+            app.run()
+
+        def actor():
+            sched.wait_until(lambda: app.running, 'running')
+            for gap, act, which in acts:
+                sched.block(('sleep', gap), gap)
+                rec = recs[which]
+                if rec['unreg'] is not None or rec['obj'].parent is rec['obj'] or (not rec['persist'] and rec['fires']):
+                    continue
+                if act == 0:
+                    ctx.stat('reset')
+                    ctx.log('reset', rec['tid'], rel(W.now))
+                    ctx.trace('t=%s actor: Timer #%d.reset()' % (rel(W.now), rec['tid']))
+                    rec['hist'].append((W.now, rec['deadline']))
+                    rec['window'] = W.now + rec['interval']
+                    rec['obj'].reset()
+                    rec['deadline'], rec['window'] = W.now + rec['interval'], None
+                else:
+                    ctx.stat('unregister')
+                    ctx.log('unreg', rec['tid'], rel(W.now))
+                    ctx.trace('t=%s actor: Timer #%d.unregister()' % (rel(W.now), rec['tid']))
+                    rec['unreg_window'] = True
+                    rec['unreg'] = W.now
+                    rec['obj'].unregister()
+                    rec['unreg_window'] = False
+            sched.block(('sleep', 'tail'), ch.choice([0.3, 1.2], 'tail'))
+            ctx.trace('t=%s actor: stop()' % rel(W.now))
+            app.stop()
+
+        sched.spawn('loop', loop)
+        sched.spawn('actor', actor)
+        prios = ch.permute([0, 1], 'prio')
+        sched.threads['loop'].prio, sched.threads['actor'].prio = prios
+        fam = ch.weighted([3, 2, 1], 'family')
+        if fam == 0:
+            for _ in range(ch.randint(1, 2, 'd')):
+                fn = ch.choice(['reset', 'unregister', 'expiry', 'fireEvent', '_fire'], 'site-fn')
+                sched.site_plan[('actor', fn, 1 + ch.draw(8, 'site-nth'))] = 'loop'
+            if ch.chance(1, 2, 'loop-too'):
+                sched.site_plan[('loop', '_on_generate_events', 1 + ch.draw(60, 'loop-nth'))] = 'actor'
+        elif fam == 1:
+            sched.walk = (random.Random(ch.draw(1 << 30, 'walk-seed')), ch.choice([0.05, 0.2, 0.5], 'walk-p'))
+        ok = sched.start()
+        ctx.sim_time = W.now - T0
+        if not ok or sched.limit_hit:
+            raise HarnessLimit('C09 threaded: wall timeout or step limit')
+        if sched.stuck and not st['viol']:
+            raise HarnessLimit('C09 threaded: global stop %r' % ({k: v[0] for k, v in sched.stuck.items()},))
+        errs = {n: repr(t.error) for n, t in sched.threads.items() if t.error is not None}
+        if errs and not st['viol']:
+            fail('C09/thread-died', repr(errs))
+        if sched.preemptions:
+            ctx.stat('preempted', sched.preemptions)
+        ctx.nontrivial = st['nfired'] >= 2 and bool(sched.preemptions or len(acts))
+    finally:
+        simthreads.end()
 
 
 def _run(ctx):
